@@ -15,9 +15,9 @@ from __future__ import annotations
 import ast
 import inspect
 
-ATTRS = ('command_semaphore', 'pending_command', 'pending_response')
+ATTRS = ('command_semaphore', 'pending_command', 'pending_response', 'transport_lost')
 FUNCS = ['_send_command', 'on_command_processed', 'on_hci_command_complete_event',
-         'on_hci_command_status_event', 'flush', 'on_transport_lost']
+         'on_hci_command_status_event', 'flush', 'on_transport_lost', 'set_packet_source']
 
 CONDS = {
     'response is None or (response.num_hci_command_packets and self.command_semaphore.locked())': 'CRespNoneOrCreditLocked',
@@ -27,6 +27,7 @@ CONDS = {
     'self.pending_command.op_code != event.command_opcode': 'COpcodeMismatch',
     'event.command_opcode == 0': 'COpcodeZero',
     'self.pending_response and (not self.pending_response.done())': 'CPendingNotDone',
+    'self.transport_lost': 'CTransportLost',
     'self.ready': 'COther',
 }
 
@@ -99,6 +100,10 @@ def stmt(s, fn, params):
             return 'HSetCommand'
         if txt == 'self.pending_command = None':
             return 'HClearCommand'
+        if txt == 'self.transport_lost = True':
+            return 'HSetLost'
+        if txt == 'self.transport_lost = False':
+            return 'HClearLost'
         if txt == 'response = await asyncio.wait_for(self.pending_response, timeout=response_timeout)':
             return 'HAwaitResponse'
         if _mentions(s) or any(isinstance(n, ast.Await) for n in ast.walk(s)):
@@ -199,7 +204,7 @@ def translate():
     names = {'_send_command': 'send_command', 'on_command_processed': 'command_processed',
              'on_hci_command_complete_event': 'command_complete_event',
              'on_hci_command_status_event': 'command_status_event', 'flush': 'flush',
-             'on_transport_lost': 'transport_lost'}
+             'on_transport_lost': 'transport_lost', 'set_packet_source': 'set_packet_source'}
     for fn in FUNCS:
         lines.append(f'(* Host.{fn} *)')
         lines.append(f'Definition {names[fn]} : list hstmt := {coq(shapes[fn])}.')
